@@ -77,8 +77,15 @@ def runtime_js_imports():
 
 def run_node(wasm_path, timeout=20):
     d = node_dir()
+    r = None
     for attempt in range(3):
-        r = subprocess.run(['node', os.path.join(d, 'run.mjs'), wasm_path], capture_output=True, text=True, timeout=timeout)
+        try:
+            # a loaded machine can stall node's start-up for a long time: the later attempts wait longer
+            r = subprocess.run(['node', os.path.join(d, 'run.mjs'), wasm_path], capture_output=True, text=True, timeout=timeout * (1 + 2 * attempt))
+        except subprocess.TimeoutExpired:
+            if attempt == 2:
+                raise
+            continue
         if '@@' in r.stdout:
             break
     lines = [l for l in r.stdout.split('\n') if l != '']
